@@ -640,7 +640,11 @@ impl<N: Fuel> Fuel for S<N> {
         let Some((w, rest)) = ws.split_first() else { return v.finish_owned(e) };
         common_arms!(N, go_c, e, w, rest, v, {
             W::Boxed => Run::go_n(BoxEntry::new(e), rest, v),
-            W::Arc_ => N::go_c(Arc::new(e), rest, v),
+            W::Arc_ => {
+                let a = Arc::new(e);
+                let _shared = Arc::clone(&a);
+                N::go_c(a, rest, v)
+            }
             W::CowOwned => N::go_c(Cow::<'static, E>::Owned(e), rest, v),
             W::CowBorrowed => N::go_r(Cow::Borrowed(&e), rest, v),
             W::Root => N::go_n(RootEntry::new(AsInfl(e)), rest, v),
@@ -651,7 +655,11 @@ impl<N: Fuel> Fuel for S<N> {
         let Some((w, rest)) = ws.split_first() else { return v.finish_owned(e) };
         common_arms!(N, go_n, e, w, rest, v, {
             W::Boxed => Run::go_n(BoxEntry::new(e), rest, v),
-            W::Arc_ => N::go_r(Arc::new(e), rest, v),
+            W::Arc_ => {
+                let a = Arc::new(e);
+                let _shared = Arc::clone(&a);
+                N::go_r(a, rest, v)
+            }
             W::Root => N::go_n(RootEntry::new(AsInfl(e)), rest, v),
             W::CowOwned | W::CowBorrowed | W::StreamGlobals(..) | W::StreamDims(..) | W::StreamForce(_) => panic!("{BAD_STACK}"),
         })
@@ -659,7 +667,11 @@ impl<N: Fuel> Fuel for S<N> {
     fn go_r<E: Entry, V: EV>(e: E, ws: &[W], v: &mut V) {
         let Some((w, rest)) = ws.split_first() else { return v.visit(&e) };
         common_arms!(N, go_r, e, w, rest, v, {
-            W::Arc_ => N::go_r(Arc::new(e), rest, v),
+            W::Arc_ => {
+                let a = Arc::new(e);
+                let _shared = Arc::clone(&a);
+                N::go_r(a, rest, v)
+            }
             W::Root => N::go_r(RootEntry::new(AsInfl(e)), rest, v),
             W::Boxed | W::CowOwned | W::CowBorrowed | W::StreamGlobals(..) | W::StreamDims(..) | W::StreamForce(_) => panic!("{BAD_STACK}"),
         })
@@ -866,7 +878,11 @@ macro_rules! value_arms {
         match $w {
             VW::Ref => <$N>::$go(&$t, $rest, $v),
             VW::Box_ => <$N>::$go(Box::new($t), $rest, $v),
-            VW::Arc_ => <$N>::$go(Arc::new($t), $rest, $v),
+            VW::Arc_ => {
+                let a = Arc::new($t);
+                let _shared = Arc::clone(&a);
+                <$N>::$go(a, $rest, $v)
+            }
             VW::Some_ => <$N>::$go(Some($t), $rest, $v),
             VW::None_ => {
                 let none = if true { None } else { Some($t) };
@@ -925,7 +941,11 @@ impl<N: VFuel> VFuel for S<N> {
         match w {
             VW::Ref => N::vgo_f::<&T, V>(&t, rest, v),
             VW::Box_ => N::vgo_f::<Box<T>, V>(Box::new(t), rest, v),
-            VW::Arc_ => N::vgo_f::<Arc<T>, V>(Arc::new(t), rest, v),
+            VW::Arc_ => {
+                let a = Arc::new(t);
+                let _shared = Arc::clone(&a);
+                N::vgo_f::<Arc<T>, V>(a, rest, v)
+            }
             VW::Some_ => N::vgo_f::<Option<T>, V>(Some(t), rest, v),
             VW::None_ => N::vgo_f::<Option<T>, V>(None, rest, v),
             VW::CowOwned => N::vgo_f::<Cow<'_, T>, V>(Cow::Owned(t), rest, v),
@@ -1143,19 +1163,63 @@ fn valid(c: &Case) -> Result<(), &'static str> {
     }
 }
 
-/// shrink a failing case: fewer wrappers, then fewer items; returns the minimal case and its site key
+fn rich_entry() -> GenEntry {
+    GenEntry::decode(
+        "T1700000000000000 CS V4c6174656e6379=Mu4d696c6c697365636f6e6473:-:.:f4045000000000000;r4059000000000000x3;u9 \
+         V4f7065726174696f6e=S466f6f V436f756e74=Mn:h:415a~61:u7 V4e6f4d=Mu436f756e74:x:.:u1 V45=E626164 V4e=N CO \
+         G4f7065726174696f6e~466f6f G53746174~3230",
+    )
+    .unwrap()
+}
+
+fn shrink_entry_items(e: &GenEntry, mut fails: impl FnMut(&GenEntry) -> bool) -> GenEntry {
+    let items = shrink_list(&e.items, |s| fails(&GenEntry { items: s.to_vec(), sample_group: e.sample_group.clone() }));
+    let sg = shrink_list(&e.sample_group, |s| fails(&GenEntry { items: items.clone(), sample_group: s.to_vec() }));
+    GenEntry { items, sample_group: sg }
+}
+
+/// shrink a failing case: a single wrapper (or an adjacent pair) of the stack over a fixed rich entry
+/// when that already fails, else fewer wrappers; then fewer items (also inside merged-in entries)
 fn shrink(c: &Case) -> Case {
     let fails = |c: &Case| valid(c).is_ok() && check(c).is_err();
     match c {
         Case::Entry(base, ws) => {
-            let ws2 = shrink_list(ws, |s| fails(&Case::Entry(base.clone(), s.to_vec())));
-            let items = shrink_list(&base.items, |s| {
-                fails(&Case::Entry(GenEntry { items: s.to_vec(), sample_group: base.sample_group.clone() }, ws2.clone()))
-            });
-            let sg = shrink_list(&base.sample_group, |s| {
-                fails(&Case::Entry(GenEntry { items: items.clone(), sample_group: s.to_vec() }, ws2.clone()))
-            });
-            Case::Entry(GenEntry { items, sample_group: sg }, ws2)
+            let mut start: Option<(GenEntry, Vec<W>)> = None;
+            'outer: for width in [1usize, 2] {
+                for b in [rich_entry(), base.clone()] {
+                    for win in ws.windows(width) {
+                        if fails(&Case::Entry(b.clone(), win.to_vec())) {
+                            start = Some((b.clone(), win.to_vec()));
+                            break 'outer;
+                        }
+                    }
+                }
+            }
+            let (base, ws) = start.unwrap_or_else(|| (base.clone(), ws.clone()));
+            let mut ws2 = shrink_list(&ws, |s| fails(&Case::Entry(base.clone(), s.to_vec())));
+            let base2 = shrink_entry_items(&base, |b| fails(&Case::Entry(b.clone(), ws2.clone())));
+            for i in 0..ws2.len() {
+                let inner = match &ws2[i] {
+                    W::MergeAfter(o) | W::MergeBefore(o) | W::MergeRefAfter(o) | W::MergeRefBefore(o) | W::StreamGlobals(_, o) => o.clone(),
+                    _ => continue,
+                };
+                let with = |o: GenEntry, ws: &[W]| -> Vec<W> {
+                    let mut v = ws.to_vec();
+                    v[i] = match &ws[i] {
+                        W::MergeAfter(_) => W::MergeAfter(o),
+                        W::MergeBefore(_) => W::MergeBefore(o),
+                        W::MergeRefAfter(_) => W::MergeRefAfter(o),
+                        W::MergeRefBefore(_) => W::MergeRefBefore(o),
+                        W::StreamGlobals(f, _) => W::StreamGlobals(*f, o),
+                        other => other.clone(),
+                    };
+                    v
+                };
+                let snapshot = ws2.clone();
+                let small = shrink_entry_items(&inner, |o| fails(&Case::Entry(base2.clone(), with(o.clone(), &snapshot))));
+                ws2 = with(small, &snapshot);
+            }
+            Case::Entry(base2, ws2)
         }
         Case::Value(base, ws) => {
             let ws2 = shrink_list(ws, |s| fails(&Case::Value(base.clone(), s.to_vec())));
@@ -1517,6 +1581,10 @@ fn run_batch(rep: &mut Report, args: &Args, cases: &[Case], sample_every: usize)
         }
         let shown = match check(c) {
             Ok(s) => s,
+            Err((_, _, shown)) if rep.oracle_failures.len() >= 50 => {
+                rep.bump("oracle failures beyond the 50 recorded");
+                shown
+            }
             Err((_, _, shown)) => {
                 let small = shrink(c);
                 let (class, what, out) = match check(&small) {
@@ -1529,7 +1597,7 @@ fn run_batch(rep: &mut Report, args: &Args, cases: &[Case], sample_every: usize)
         };
         rep.case(&enc, nontrivial(c, &shown));
         describe(rep, c, &shown);
-        if sample_every > 0 && ci % sample_every == 7 {
+        if sample_every > 0 && ci % sample_every == 7 % sample_every {
             rep.sample(json!({"case": enc, "impl": shown}));
         }
         requests.push(c.model_request());
@@ -1578,14 +1646,7 @@ fn merge(into: &mut Report, from: Report) {
 /// every single wrapper and every ordered pair of entry-level wrapper kinds over a fixed rich entry
 fn systematic_cases(rng: &mut Rng) -> Vec<Case> {
     let mut out = vec![];
-    let base = || {
-        GenEntry::decode(
-            "T1700000000000000 CS V4c6174656e6379=Mu4d696c6c697365636f6e6473:-:.:f4045000000000000;r4059000000000000x3 \
-             V4f7065726174696f6e=S466f6f V436f756e74=Mn:h:415a~61:u7 V4e6f4d=Mu436f756e74:x:.:u1 V45=E626164 V4e=N CO \
-             G4f7065726174696f6e~466f6f G53746174~3230",
-        )
-        .unwrap()
-    };
+    let base = rich_entry;
     let other = || GenEntry::decode("V476c6f62616c=S67 V47436e74=Mn:-:.:u3 G47~67").unwrap();
     let dims = || vec![("AZ".to_string(), "b".to_string()), ("Cell".to_string(), "c1".to_string())];
     let kinds = |rng: &mut Rng| -> Vec<W> {
@@ -1717,7 +1778,7 @@ fn main() {
     run_batch(&mut rep, &args, &first, 211);
 
     // random stacks, sharded
-    let (shards, per_shard, chunk) = if args.thorough() { (12u64, 400_000usize, 25_000usize) } else { (3u64, 60_000usize, 20_000usize) };
+    let (shards, per_shard, chunk) = if args.thorough() { (12u64, 1_000_000usize, 25_000usize) } else { (3u64, 60_000usize, 20_000usize) };
     let forks: Vec<Rng> = (0..shards).map(|i| rng.fork(i)).collect();
     let reports: Vec<Report> = std::thread::scope(|sc| {
         let handles: Vec<_> = forks
